@@ -247,6 +247,14 @@ def run(ctx):
 
     k = 2 if ctx.thorough else 1
     cases = list(dbe.cases(wfn.SPACE, k))
+    # the interaction the writers are most likely to get wrong is always enumerated as a full product:
+    # shell order x conventions (thorough: x contraction), on top of the deviation-bounded enumeration
+    default = {n: m[0] for n, m in wfn.SPACE}
+    axes = dict(wfn.SPACE)
+    extra = [dict(default, shell_order=so, conventions=cv, contraction=cn) for so in axes["shell_order"] for cv in axes["conventions"]
+             for cn in (axes["contraction"] if ctx.thorough else ["segmented"])]
+    seen = {repr(sorted(c.items())) for c in cases}
+    cases += [c for c in extra if repr(sorted(c.items())) not in seen]
     jobs = [("gen", c, t, a) for c in cases for t in wfn.TARGETS for a in (False, True)]
     files = corpus_sources(ctx.thorough)
     jobs += [("corpus", f, t, a) for f in files for t in wfn.TARGETS for a in (False, True)]
@@ -255,7 +263,7 @@ def run(ctx):
     ctx.cov.update(dbe_k=k, generated_cases=len(cases), corpus_sources=len(files), targets=list(wfn.TARGETS))
     ctx.exhaustive = True
     ctx.rule = (
-        f"deviation-bounded enumeration k<={k} over centers(6) x shell set(13) x contraction(5) x shell order(7) x conventions(10) x orbitals(9) x extras(7), every case fully crossed with the 5 dumpable "
+        f"deviation-bounded enumeration k<={k} (plus the full product shell order x conventions, thorough: x contraction) over centers(6) x shell set(13) x contraction(5) x shell order(7) x conventions(10) x orbitals(9) x extras(7), every case fully crossed with the 5 dumpable "
         f"wavefunction formats x allow_changes; plus {len(files)} corpus wavefunction files as sources x 5 x 2. Outcome must be an error or a file that reloads to the same nuclei and, for every orbital, "
         "the same values at 14 probe points (independent evaluator ref/gto.py on source and reloaded object), same occupations/energies/spin and same density for stored density matrices. "
         "Distinct = (deviation set or corpus file, target, allow_changes)."
